@@ -16,3 +16,54 @@ PROPS['C20'] = dict(
     technique='property-based testing (rapidcheck): round trip + hand-written reference formatter/parser; exhaustive enumeration of small strata',
     assumptions=['reference renderer/parser written by hand (no printf/strtoull)', 'sscanf-permitted prefixes (white space, sign, 0x) are not asserted either way'],
 )
+
+PROPS['C01'] = dict(
+    src='props/C01.cpp', variants=['fast', 'asan'], level='exploration',
+    rule=('64-bit values: field-structured with planted single-rule violations, bit-flipped valid cells, raw; complete strata '
+          '(res x base cell 0..127 x position x digit 0..7 x 7 backgrounds; all top bytes; all digit strings of length <=6 over 8 symbols '
+          'with clean / dirty tails; all strings over {0,1,6,7} up to res 11); closure cases call every cell-producing API. '
+          'non-trivial = the documented layout says valid, or exactly one rule is violated, or (closure) at least one cell was produced; distinct by value / call'),
+    quick=dict(cases={'fast': 60_000_000, 'asan': 3_000_000}, enum={'fast': 8}),
+    thorough=dict(cases={'fast': 2_000_000_000, 'asan': 60_000_000}, enum={'fast': 16}),
+    strata=dict(quick=['(res, base cell 0..127, position 1..15, digit 0..7) x 7 backgrounds', 'all 256 top bytes x 16 res x 4 bodies',
+                       'all digit strings of length <=6 over {0..7} x clean/dirty tails x base cells {0,4,117,121,122,127}', 'all strings over {0,1,6,7}, res<=11, base cells {0,4}'],
+                thorough=['as quick with lengths <=7 and res<=13']),
+    level_text=('isValidCell compared in both directions with a loop-based reference predicate written from the documented bit layout, on ~1e8 generated values '
+                '(structured, planted violations, bit flips, raw) plus complete enumeration of the field-local strata (every res x base cell x position x digit); '
+                'the closure clause applies the reference predicate to every cell returned by 19 groups of cell-producing API calls. Testing, not the symbolic decision over 2^64.'),
+    level_note='trusted: engine/h3ref.hpp (self-tested at start-up on closed-form identities); the all-2^64 quantifier is approximated by exhaustive field-local strata + generated search',
+    technique='property-based testing (rapidcheck) against a reference model + exhaustive enumeration of field-local strata',
+    assumptions=['reference predicate in engine/h3ref.hpp follows website/docs/library/index/cell.md'],
+)
+
+PROPS['C04'] = dict(
+    src='props/C04.cpp', variants=['fast', 'asan'], level='exploration',
+    rule=('(cell, childRes) / (cell, parentRes) pairs: full child enumeration for depth differences <=6 (8 thorough), deep samples up to difference 15, '
+          'converse (cell is among the children of every ancestor), error clauses; cells from the mixture with extra weight on pentagons and pentagon descendants. '
+          'Complete strata: all 122 res-0 cells and all pentagons of all 16 res x every depth difference. '
+          'non-trivial = depth difference >=1 (or an in-range error-clause argument); distinct by (kind, cell, res, seed)'),
+    quick=dict(cases={'fast': 60_000, 'asan': 8_000}, enum={'fast': 4}),
+    thorough=dict(cases={'fast': 1_500_000, 'asan': 150_000}, enum={'fast': 8}),
+    strata=dict(quick=['all res-0 cells x depth 0..6 (full child arrays)', 'all pentagons res 1..15 x depth 0..6 (full) and x every child res (size, centre child, samples)'],
+                thorough=['as quick with depth 0..8']),
+    level_text=('cellToChildren/Size/CenterChild/Parent compared with a digit-string reference model of the hierarchy; output order, validity, parent link, centre coincidence '
+                '(C02 tolerance) and the counting (pigeonhole) argument for the partition checked on every generated pair; exact-size guarded buffers under ASan'),
+    level_note='trusted: engine/h3ref.hpp (self-tested); partition shown by count + distinctness + parent link per generated parent, not over all parents at once beyond res 0->k',
+    technique='property-based testing (rapidcheck) against a digit-string reference model + enumeration of pentagon / res-0 strata',
+    assumptions=['reference hierarchy model in engine/h3ref.hpp'],
+)
+
+PROPS['C13'] = dict(
+    src='props/C13.cpp', variants=['fast', 'asan'], level='exploration',
+    rule=('(parent, childRes, position) triples incl. sub-block boundaries, whole child arrays for depth differences <=6 (8 thorough), (child, every ancestor) pairs, '
+          'error clauses; complete stratum: every pentagon parent of every res x every child res (whole array up to depth 5/7, first-level sub-block boundaries beyond). '
+          'non-trivial = child res finer than parent res (or an in-range error argument); distinct by the case tuple'),
+    quick=dict(cases={'fast': 400_000, 'asan': 30_000}, enum={'fast': 4}),
+    thorough=dict(cases={'fast': 20_000_000, 'asan': 1_000_000}, enum={'fast': 8}),
+    strata=dict(quick=['12 pentagons x 16 res x every child res: whole array (depth<=5) + sub-block boundaries'], thorough=['same with depth<=7']),
+    level_text=('childPosToCell / cellToChildPos compared with the reference enumeration order on digit strings (lexicographic with the deleted digit-1 branch under a pentagon chain), '
+                'round trip both ways, position-by-position agreement with cellToChildren, and the three documented error codes'),
+    level_note='trusted: engine/h3ref.hpp child_at / child_pos (self-tested against each other and against monotonic order at start-up)',
+    technique='property-based testing (rapidcheck) against a reference enumeration model; exhaustive over pentagon parents x depth',
+    assumptions=['reference hierarchy model in engine/h3ref.hpp'],
+)
